@@ -198,17 +198,28 @@ def correspondence(ctx):
             fails.append({"key": "numba-typing:" + q.split()[1], "what": dis[-1], "code": None})
     # compile-and-run probes
     jobs = []
-    progs = [("def f(v):\n    return v.rotateZ(0.3).rho\n", 1), ("def f(v, w):\n    return v.add(w)\n", 2), ("def f(v, w):\n    return v.dot(w)\n", 2),
-             ("def f(v):\n    return v.to_xyz().scale(2.0)\n", 1), ("def f(v, w):\n    return v.add(w).unit().phi\n", 2),
-             ("def f(v):\n    return v.x, v.phi\n", 1), ("def f(v, w):\n    return v.subtract(w).to_rhophieta().eta\n", 2),
-             ("def f(v, w):\n    return v.deltaR(w)\n", 2), ("def f(v, w):\n    return v.equal(w)\n", 2)]
-    nprobe = 12 if ctx.tier == "quick" else 60
-    for _ in range(nprobe):
-        src, n = r.choice(progs)
-        dim = r.choice((3, 4)) if ("deltaR" in src or "eta" in src or "to_xyz" in src) else r.choice((2, 3, 4))
-        fl = r.choice("gm")
-        toks = [symobj.vtoken(fl, r.choice(C.SIGS[dim]), i + 1) for i in range(n)]    # same flavor: mixed flavor is the known finding
-        jobs.append((src, toks))
+    # (source, operand dimensions) — every supported family, operands in independently chosen coordinate systems (same flavor)
+    progs = [("def f(v):\n    return v.rotateZ(0.3).rho\n", (0,)), ("def f(v, w):\n    return v.add(w)\n", (0, 0)),
+             ("def f(v, w):\n    return v.dot(w)\n", (0, 0)), ("def f(v):\n    return v.to_xyz().scale(2.0)\n", (3,)),
+             ("def f(v, w):\n    return v.add(w).unit().phi\n", (0, 0)), ("def f(v):\n    return v.x, v.phi\n", (0,)),
+             ("def f(v, w):\n    return v.subtract(w).to_rhophieta().eta\n", (3, 3)), ("def f(v, w):\n    return v.deltaR(w)\n", (3, 3)),
+             ("def f(v, w):\n    return v.equal(w)\n", (0, 0)), ("def f(v, w):\n    return v.rotate_axis(w, 0.7)\n", (3, 3)),
+             ("def f(v, w):\n    return v.rotate_axis(w, -1.2)\n", (4, 3)), ("def f(v, w):\n    return v.cross(w)\n", (3, 3)),
+             ("def f(v, w):\n    return v.boost_p4(w)\n", (4, 4)), ("def f(v, w):\n    return v.boost_beta3(w.to_beta3())\n", (4, 4)),
+             ("def f(v, w):\n    return v.deltaangle(w), v.deltaeta(w), v.deltaphi(w)\n", (3, 4)),
+             ("def f(v, w):\n    return v.is_parallel(w), v.is_perpendicular(w), v.isclose(w)\n", (3, 3)),
+             ("def f(v):\n    return v.rotateX(0.4).rotateY(-0.9).mag\n", (3,)), ("def f(v):\n    return v.boostX(beta=0.3).boostZ(gamma=1.5)\n", (4,)),
+             ("def f(v):\n    return v.rotate_euler(0.1, 0.2, 0.3, 'yxz'), v.rotate_quaternion(0.5, 0.5, 0.5, 0.5)\n", (3,)),
+             ("def f(v):\n    return v.to_rhophithetatau().tau, v.rapidity, v.gamma, v.Et if False else v.beta\n", (4,)),
+             ("def f(v, w):\n    return v.deltaRapidityPhi(w), v.boostCM_of_p4(w).t\n", (4, 4)),
+             ("def f(v):\n    return v.to_Vector2D(), v.to_Vector3D(), v.neg3D, v.is_timelike()\n", (4,))]
+    reps = 2 if ctx.tier == "quick" else 10
+    for src, dims in progs:
+        for _ in range(reps):
+            fl = r.choice("gm")
+            d0 = r.choice((2, 3, 4))
+            toks = [symobj.vtoken(fl, r.choice(C.SIGS[d or d0]), i + 1) for i, d in enumerate(dims)]    # same flavor: mixed flavor is the known finding
+            jobs.append((src, toks))
     jobs.append(("def f(v, w):\n    return v.add(w)\n", ["g:xy:-:-:1", "m:rhophi:-:-:2"]))       # the known finding, for the record
     with mp.get_context("spawn").Pool(min(12, os.cpu_count() or 4)) as pool:
         results = pool.map(probe_worker, jobs)
